@@ -5,7 +5,7 @@
    working tree.  What ties the model to the code is the correspondence of harness/props/C20.py. *)
 From Coq Require Import List ZArith Bool.
 From PV Require Import lib.Sx lib.Str lib.Result model.Generated model.Detect spec.SpecDetect spec.SpecOwn
-  proofs.DetectFacts proofs.DetectOwnFacts model.OwnWrite spec.SpecOwnNodes proofs.DetectNodeFacts proofs.DetectVttFacts model.SccWrite model.OwnWriteScc proofs.OwnSccFacts model.TimeRead proofs.OwnReadFacts proofs.OwnReadSrtFacts.
+  proofs.DetectFacts proofs.DetectOwnFacts model.OwnWrite spec.SpecOwnNodes proofs.DetectNodeFacts proofs.DetectVttFacts model.SccWrite model.OwnWriteScc proofs.OwnSccFacts model.TimeRead proofs.OwnReadFacts proofs.OwnReadSrtFacts spec.SpecXmlDocT model.DfxpWriteDoc model.OwnWriteDfxp proofs.OwnDfxpFacts.
 Import ListNotations.
 Open Scope Z_scope.
 
@@ -144,6 +144,16 @@ Theorem C20_own_detect_and_read_srt : forall langs, srt_dom langs = true -> srt_
                                 (td_seconds (oc_end c) * 1000 + td_millis (oc_end c)) * 1000)) (srt_merge (hd [] langs)).
 Proof. exact own_detect_and_read_srt. Qed.
 Print Assumptions C20_own_detect_and_read_srt.
+
+(* DFXP from the text nodes (round 4): the document of the string-level DFXP writer model (time builders'
+   model/DfxpWriteDoc.v, read-only; one language, text lines, no style / layout) closes the root element with "</tt>": it is
+   detected as DFXP for EVERY caption list and language code, whatever the text (the writer escapes it; not even needed). *)
+Theorem C20_own_nodes_dfxp : forall lang caps, detect_format (dfxp_write_nodes lang caps) = Ok (Some R_DFXP).
+Proof. exact own_nodes_dfxp. Qed.
+Print Assumptions C20_own_nodes_dfxp.
+Theorem C20_own_dfxp_doc_model : forall lang cs, detect_format (dfxp_write_doc lang cs) = Ok (Some R_DFXP).
+Proof. exact own_dfxp_doc. Qed.
+Print Assumptions C20_own_dfxp_doc_model.
 
 (* DFXP / SAMI (documents produced by bs4, not modelled): what detection needs of their skeleton.  A document that
    contains the root element's closing tag is DFXP whatever else it contains; a document that opens with the <sami root
@@ -333,3 +343,8 @@ Example C20_example_read_srt :
   let cr := [[mk_ocap 1000000 2000000 [OText (lit "a" ++ [13; 13] ++ lit "b")]; mk_ocap 3000000 4000000 [OText (lit "x")]]] in
   srt_read_dom cr = false /\ srt_dom cr = true /\ srt_read (srt_write cr) = Ok [(1000000, 2000000, [lit "a"])].
 Proof. vm_compute. repeat split. Qed.
+
+Example C20_example_own_nodes_dfxp :
+  detect_format (dfxp_write_nodes (lit "en-US")
+    [mk_ocap 1000000 2000000 [OText (lit "WEBVTT {1}{2}"); OBreak; OText (lit "<sami> Scenarist_SCC V1.0 -->")]]) = Ok (Some R_DFXP).
+Proof. vm_compute. reflexivity. Qed.
